@@ -53,6 +53,11 @@ fn send_all(s: i64, seed: u64, lens: &[i64], tx: IpcSender<Vec<u8>>) {
 pub fn child_main(args: &[String]) {
     die_with_parent();
     verif::init();
+    // the library must not rely on SIGPIPE being ignored (the Rust runtime ignores it; a C host program does not)
+    unsafe {
+        libc::signal(libc::SIGPIPE, libc::SIG_DFL);
+    }
+
     let name = args[0].clone();
     let s: i64 = args[1].parse().unwrap();
     let seed: u64 = args[2].parse().unwrap();
@@ -75,6 +80,11 @@ pub fn child_main(args: &[String]) {
 pub fn run() {
     raise_nofile();
     verif::init();
+    // the library must not rely on SIGPIPE being ignored (the Rust runtime ignores it; a C host program does not)
+    unsafe {
+        libc::signal(libc::SIGPIPE, libc::SIG_DFL);
+    }
+
     install_panic_recorder();
     // warm-up: lazily created process-wide state is not attributed to the first scenario
     {
